@@ -116,7 +116,11 @@ def field_problem_out(n, v):
 
 
 def block_problem_out(hs, kind):
-    """the promises of outbound validation: TE, connection-specific fields, pseudo-header rules, :authority/Host, :path"""
+    """the promises of outbound validation: no empty field name (RFC 7230: a field name is a non-empty token; the peer
+    must treat the block as malformed), TE, connection-specific fields, pseudo-header rules, :authority/Host, :path"""
+    for n, v in hs:
+        if len(n) == 0:
+            return 'empty-name'
     for n, v in hs:
         if n in CONNECTION_SPECIFIC:
             return 'connection-specific'
